@@ -118,6 +118,7 @@ func (s *sliceMachine) Done(procs int, err error) {
 func (s *sliceMachine) Assign(task *Task) {
 	s.mu.Lock()
 	defer s.mu.Unlock()
+	vtrace("SmAssign", s, task, s.lost)
 	if s.lost {
 		task.Set(TaskLost)
 	} else {
@@ -131,6 +132,7 @@ func (s *sliceMachine) Discard(ctx context.Context, task *Task) {
 	s.mu.Lock()
 	_, ok := s.tasks[task]
 	delete(s.tasks, task)
+	vtrace("SmDiscard", s, task, ok)
 	s.mu.Unlock()
 	if !ok {
 		return
@@ -222,6 +224,7 @@ loop:
 	s.lost = true
 	tasks := s.tasks
 	s.tasks = nil
+	vtrace("SmLost", s, tasks)
 	s.mu.Unlock()
 	log.Error.Printf("lost machine %s: marking its %d tasks as LOST", s.Machine.Addr, len(tasks))
 	for task := range tasks {
